@@ -280,14 +280,15 @@ func ruleSingleDispatch(c *Ctx, rule string) {
 					break
 				}
 			}
-			if good {
+			_, isPhi := v.(*ssa.Phi)
+			if good && (isPhi || len(lookups)-len(saved) <= 1) {
 				return true
 			}
 			lookups = saved
-			if _, isPhi := v.(*ssa.Phi); isPhi {
+			if isPhi {
 				return false
 			}
-			// not a wrapper around a lookup: perhaps the lookup itself (below)
+			// not a wrapper around one lookup: perhaps the lookup itself, split into typed helpers (below)
 		}
 		switch x := v.(type) {
 		case *ssa.Call:
@@ -325,6 +326,12 @@ func ruleSingleDispatch(c *Ctx, rule string) {
 						switch stripConv(mi.X).(type) {
 						case *ssa.IndexAddr, *ssa.FieldAddr, *ssa.Alloc:
 							lg = true
+						}
+						// a pointer tested non-nil on the way (`if md := findUnaryMethod(…); md != nil { return md }`)
+						for _, f := range factsAt(at) {
+							if x, op, y, isCmp := cmpFact(f); isCmp && op == token.NEQ && isNilConst(y) && stripConv(x) == stripConv(mi.X) {
+								lg = true
+							}
 						}
 					}
 					if !lg {
@@ -367,7 +374,11 @@ func ruleSingleDispatch(c *Ctx, rule string) {
 		if okParts {
 			src := desc(p0.split.Call.Args[0])
 			sepOK := desc(p0.split.Call.Args[1]) == "\"/\""
-			nOK, _ := constInt(p0.split.Call.Args[2])
+			isCut := calleeName(p0.split) == "strings.Cut"
+			nOK := int64(2) // Cut splits once
+			if !isCut {
+				nOK, _ = constInt(p0.split.Call.Args[2])
+			}
 			fromFrame := false
 			if r0, ch0 := fieldChain(stripTrimPrefix(p0.split.Call.Args[0])); len(ch0) == 1 && ch0[0] == "MethodName" {
 				if pp, isP := origin(r0).(*ssa.Parameter); isP && pp.Parent() == a.Create {
@@ -378,6 +389,10 @@ func ruleSingleDispatch(c *Ctx, rule string) {
 			// len(parts) == 2 guard before use
 			g := false
 			for _, f := range factsAt(lk) {
+				// strings.Cut: dominated by found == true
+				if ex, isEx := origin(f.Cond).(*ssa.Extract); isEx && isCut && ex.Tuple == ssa.Value(p0.split) && ex.Index == 2 && f.True {
+					g = true
+				}
 				if x, op, y, ok := cmpFact(f); ok {
 					if call, isC := x.(*ssa.Call); isC && calleeName(call) == "builtin.len" && origin(call.Call.Args[0]) == ssa.Value(p0.split) {
 						k, _ := constInt(y)
@@ -428,6 +443,12 @@ type splitIdx struct {
 // indexOfSplit: v == strings.SplitN(...)[k]
 func indexOfSplit(v ssa.Value) splitIdx {
 	v = origin(v)
+	// before, after, found := strings.Cut(name, "/")
+	if ex, isEx := v.(*ssa.Extract); isEx && ex.Index < 2 {
+		if call, isC := ex.Tuple.(*ssa.Call); isC && calleeName(call) == "strings.Cut" {
+			return splitIdx{call, int64(ex.Index)}
+		}
+	}
 	u, ok := v.(*ssa.UnOp)
 	if !ok || u.Op != token.MUL {
 		return splitIdx{}
@@ -1052,6 +1073,54 @@ func ruleClosePathsReachCarrier(c *Ctx, rule string) {
 		if d, ok := in.(*ssa.Defer); ok && calleeName(d) == "(*sync.WaitGroup).Done" {
 			done = d
 		}
+		// `done, err := s.addInstance(stream); …; defer done()` with done the WaitGroup's Done method value
+		if d, ok := in.(*ssa.Defer); ok && staticCallee(d) == nil && !d.Call.IsInvoke() && len(d.Call.Args) == 0 {
+			isDone := func(v ssa.Value) bool {
+				if t := funcValueTarget(origin(v)); t != nil && t.String() == "(*sync.WaitGroup).Done" {
+					return true
+				}
+				// the bound-method wrapper of a method of another package has no body here: its object is the method
+				if mc, isMC := origin(v).(*ssa.MakeClosure); isMC && len(mc.Bindings) == 1 {
+					if bf, isF := mc.Fn.(*ssa.Function); isF && strings.HasSuffix(bf.Name(), "$bound") {
+						if m, isM := bf.Object().(*types.Func); isM && m.FullName() == "(*sync.WaitGroup).Done" {
+							return true
+						}
+					}
+				}
+				return false
+			}
+			if isDone(d.Call.Value) {
+				done = d
+			}
+			// … handed out by the registration function together with a nil error
+			if ex, isEx := origin(d.Call.Value).(*ssa.Extract); isEx && ex.Index == 0 {
+				if rc, isC := ex.Tuple.(*ssa.Call); isC && staticCallee(rc) == add && add != nil {
+					nOK, bad := 0, false
+					for _, ret := range returnsOf(add) {
+						if len(ret.Results) != 2 {
+							bad = true
+							continue
+						}
+						// (named results are read back from their variables at the return: origin sees through that)
+						if e := origin(ret.Results[1]); !isNilConst(e) {
+							if nn, _ := nonNilError(e, ret, 0); nn {
+								continue // refused: the caller returns without using the function
+							}
+							bad = true
+							continue
+						}
+						if isDone(ret.Results[0]) {
+							nOK++
+						} else {
+							bad = true
+						}
+					}
+					if nOK > 0 && !bad {
+						done = d
+					}
+				}
+			}
+		}
 		if ci, ok := in.(*ssa.Call); ok {
 			if staticCallee(ci) == add {
 				addCall = ci
@@ -1065,7 +1134,7 @@ func ruleClosePathsReachCarrier(c *Ctx, rule string) {
 	if okDone {
 		okDone = false
 		for _, f := range factsAt(done) {
-			if x, op, y, ok := cmpFact(f); ok && op == token.EQL && (stripConv(x) == ssa.Value(addCall) || origin(x) == ssa.Value(addCall)) && isNilConst(y) {
+			if x, op, y, ok := cmpFact(f); ok && op == token.EQL && isErrorOfCall(x, addCall) && isNilConst(y) {
 				okDone = true // (the result may have been assigned to the named error result first)
 			}
 		}
@@ -1079,7 +1148,7 @@ func ruleClosePathsReachCarrier(c *Ctx, rule string) {
 			}
 			failedAdd := false
 			for _, f := range factsAt(ret) {
-				if x, op, y, ok := cmpFact(f); ok && op == token.NEQ && isNilConst(y) && (stripConv(x) == ssa.Value(addCall) || origin(x) == ssa.Value(addCall)) {
+				if x, op, y, ok := cmpFact(f); ok && op == token.NEQ && isNilConst(y) && isErrorOfCall(x, addCall) {
 					failedAdd = true
 				}
 			}
@@ -1126,10 +1195,23 @@ func ruleStickyAfterFinish(c *Ctx, rule string) {
 		name := w.Short(fn)
 		rn := recvNamed(fn)
 		// entry: if readErr != nil return it
+		// the stream's read-side error field: the error field this function returns a load of (the stream may have other
+		// error fields, e.g. the write side's)
 		var errField FieldRef
 		for _, f := range flatFields(rn) {
-			if types.TypeString(f.Type, nil) == "error" {
-				errField = FieldRef{rn.Obj().Name(), f.Name}
+			if types.TypeString(f.Type, nil) != "error" {
+				continue
+			}
+			cand := FieldRef{rn.Obj().Name(), f.Name}
+			returned := false
+			for _, ret := range returnsOf(fn) {
+				t := returnTuple(ret)
+				if e := t[len(t)-1]; e != nil && isFieldLoad(e, cand) {
+					returned = true
+				}
+			}
+			if returned || errField.Field == "" {
+				errField = cand
 			}
 		}
 		okSticky := false
@@ -1350,6 +1432,24 @@ func ruleShutdownFlags(c *Ctx, rule string) {
 				if mc, ok := last.(*ssa.MakeClosure); ok {
 					if strings.Contains(mc.Fn.Name(), "Load") && len(mc.Bindings) == 1 {
 						if fr, _, ok := fieldOfAddr(mc.Bindings[0]); ok && fr == flag {
+							okPred = true
+						}
+					}
+					// a method of the handler that does nothing but load the flag (`s.isStopping`)
+					if t := funcValueTarget(mc); t != nil && t != mc.Fn && len(mc.Bindings) == 1 && len(t.Params) == 1 {
+						rets := returnsOf(t)
+						all := len(rets) > 0
+						for _, ret := range rets {
+							lc, isC := stripConv(ret.Results[0]).(*ssa.Call)
+							if !isC || !strings.HasSuffix(calleeName(lc), "atomic.Bool).Load") {
+								all = false
+								continue
+							}
+							if fr, base, ok := fieldOfAddr(lc.Call.Args[0]); !ok || fr != flag || base != ssa.Value(t.Params[0]) {
+								all = false
+							}
+						}
+						if all {
 							okPred = true
 						}
 					}
@@ -1933,6 +2033,63 @@ func (c *Ctx) readsMarker(v ssa.Value, marker FieldRef) bool {
 	return false
 }
 
+// markerCase: one alternative of a value, followed through phis and private helpers down to a read of the marker; Aliases
+// are the intermediate values (helper call results) that are this very value on the path taken, so that a fact about any
+// of them is a fact about Val.
+type markerCase struct {
+	Val     ssa.Value
+	Facts   []EdgeFact
+	Aliases []ssa.Value
+}
+
+func (m markerCase) isAlias(x ssa.Value) bool {
+	ox := origin(x)
+	if ox == origin(m.Val) {
+		return true
+	}
+	for _, a := range m.Aliases {
+		if origin(a) == ox {
+			return true
+		}
+	}
+	return false
+}
+
+// casesUntilMarker expands v level by level (valueCases, one level at a time) and stops at values that read the marker
+// (directly or through an accessor). Alternatives that contradict what is known about an alias (the nil constant where an
+// enclosing test established != nil) are infeasible and dropped.
+func (c *Ctx) casesUntilMarker(v ssa.Value, marker FieldRef, levels int, facts []EdgeFact, aliases []ssa.Value) []markerCase {
+	v = stripConv(v)
+	leaf := markerCase{v, facts, aliases}
+	if levels == 0 || c.readsMarker(v, marker) {
+		return []markerCase{leaf}
+	}
+	cs := valueCases(v, 4)
+	if len(cs) == 1 && cs[0].Val == v {
+		return []markerCase{leaf}
+	}
+	var out []markerCase
+	al := append(append([]ssa.Value{}, aliases...), v)
+	for _, sub := range cs {
+		fs := append(append([]EdgeFact{}, facts...), sub.Facts...)
+		for _, mc := range c.casesUntilMarker(sub.Val, marker, levels-1, fs, al) {
+			if isNilConst(mc.Val) {
+				infeasible := false
+				for _, f := range mc.Facts {
+					if x, op, y, isCmp := cmpFact(f); isCmp && op == token.NEQ && isNilConst(y) && mc.isAlias(x) && origin(x) != origin(mc.Val) {
+						infeasible = true
+					}
+				}
+				if infeasible {
+					continue
+				}
+			}
+			out = append(out, mc)
+		}
+	}
+	return out
+}
+
 // invokeSendFailureReturns: the returns of the channel's Invoke that report a failure to send the request (after the
 // stream was created, before any receive).
 func (c *Ctx) invokeSendFailureReturns() (inv *ssa.Function, rets []*ssa.Return) {
@@ -2069,8 +2226,8 @@ func ruleInvokeReportsOutcome(c *Ctx, rule string) {
 		t := returnTuple(ret)
 		ok := false
 		if len(t) > 0 && t[len(t)-1] != nil {
-			for _, vc := range valueCases(t[len(t)-1], 0) {
-				if c.readsMarker(vc.Val, a.CSDone) {
+			for _, mc := range c.casesUntilMarker(t[len(t)-1], a.CSDone, 4, nil, nil) {
+				if c.readsMarker(mc.Val, a.CSDone) {
 					ok = true
 				}
 			}
@@ -2102,13 +2259,15 @@ func ruleInvokeReportsOutcome(c *Ctx, rule string) {
 		}
 		okCases, nOutcome, nSend := true, 0, 0
 		why := ""
-		for _, vc := range valueCases(rv, 4) { // one level: the alternatives written in Invoke or in the helper it returns
+		// the alternatives written in Invoke, in the helper it returns and in the helpers that one filters the outcome through
+		// (`if outcome := st.failure(); outcome != nil { return outcome }`), down to the read of the recorded outcome
+		for _, vc := range c.casesUntilMarker(rv, a.CSDone, 3, nil, nil) {
 			if c.readsMarker(vc.Val, a.CSDone) {
 				nOutcome++
 				nonNil, notEOF := false, false
 				for _, f := range vc.Facts {
 					x, op, y, isCmp := cmpFact(f)
-					if !isCmp || op != token.NEQ || origin(x) != origin(vc.Val) {
+					if !isCmp || op != token.NEQ || !vc.isAlias(x) {
 						continue
 					}
 					if isNilConst(y) {
@@ -2233,4 +2392,148 @@ func ruleCancelDoesNotWait(c *Ctx, rule string) {
 		at = w.At(waits)
 	}
 	c.check(waits == nil, rule, w.Short(a.CancelStream)+": reaches the finishing function without taking a sender-side mutex", at, "no acquisition of "+strings.Join(names, ", ")+" before finishing", "the cancel path locks a mutex that SendMsg holds while its frame is handed to the (possibly stalled) transport: cancelling the RPC's context then does not end the RPC at the caller until the peer reads again — RecvMsg stays blocked and the cancel frame is never queued")
+}
+
+// isErrorOfCall: x is the error result of call (its only result, or the last element of its result tuple).
+func isErrorOfCall(x ssa.Value, call *ssa.Call) bool {
+	for _, v := range []ssa.Value{stripConv(x), origin(x)} {
+		if v == ssa.Value(call) {
+			return true
+		}
+		if ex, ok := v.(*ssa.Extract); ok && ex.Tuple == ssa.Value(call) {
+			if tup, isT := call.Type().(*types.Tuple); isT && ex.Index == tup.Len()-1 {
+				return true
+			}
+		}
+	}
+	return false
+}
+
+// ruleContextErrorsAsStatus (C07.16): a done context is reported to the caller as a gRPC status.
+func ruleContextErrorsAsStatus(c *Ctx, rule string) {
+	c.rule(rule, "an RPC that cannot be started because a context is already done is reported with a gRPC status (Canceled / DeadlineExceeded): none of the functions on the channel's call-start path (Invoke, NewStream and what they delegate to) returns the bare result of Context.Err()")
+	w := c.W
+	a := w.Anchors()
+	if !c.need(rule, "NewStream", a.NewStream) || !c.need(rule, "Allocate", a.Allocate) {
+		return
+	}
+	fns := []*ssa.Function{a.NewStream, a.Allocate}
+	for _, m := range []string{"Invoke", "NewStream"} {
+		if f := w.methodFn(a.Ch, m); f != nil {
+			fns = append(fns, f)
+		}
+	}
+	seen := map[*ssa.Function]bool{}
+	n := 0
+	for _, fn := range fns {
+		if seen[fn] {
+			continue
+		}
+		seen[fn] = true
+		res := fn.Signature.Results()
+		if res.Len() == 0 || types.TypeString(res.At(res.Len()-1).Type(), nil) != "error" {
+			continue
+		}
+		forEachReturnValue(fn, res.Len()-1, func(v ssa.Value, at ssa.Instruction) {
+			n++
+			bare := ""
+			for _, vc := range valueCases(v, 2) {
+				if call, ok := origin(vc.Val).(*ssa.Call); ok && call.Call.IsInvoke() && call.Call.Method.Name() == "Err" && strings.HasSuffix(types.TypeString(call.Call.Value.Type(), nil), "context.Context") {
+					bare = desc(call)
+				}
+			}
+			c.check(bare == "", rule, fmt.Sprintf("%s: error returned in block %d", w.Short(fn), at.Block().Index), w.At(at), "not a bare context error", "the call-start path returns "+bare+" as is: the caller of a cancelled or expired RPC sees a non-status error (code Unknown) instead of Canceled / DeadlineExceeded — convert with status.FromContextError")
+		})
+	}
+	c.floor(rule, n, 6, "error returns on the call-start path")
+}
+
+// ruleGracefulNeverClosesEarly (C10.11): GracefulStop does not put the server into the closed state while it still waits.
+func ruleGracefulNeverClosesEarly(c *Ctx, rule string) {
+	c.rule(rule, "GracefulStop never marks the reverse-tunnel server closed before its wait for the Serve calls has returned (directly, through a helper or through a deferred call that runs ahead of the deferred wait): Stop skips its half-close loop once the state is closed, so a Stop that follows a pending GracefulStop could no longer force the tunnels down")
+	w := c.W
+	gs, stop := w.Func("(*ReverseTunnelServer).GracefulStop"), w.Func("(*ReverseTunnelServer).Stop")
+	if gs == nil || stop == nil {
+		c.fail(rule, "GracefulStop / Stop", "-", "not found")
+		return
+	}
+	state := FieldRef{"ReverseTunnelServer", w.Roles().RTSState}
+	type hit struct{ st, site ssa.Instruction }
+	closedStores := func(root *ssa.Function) []hit {
+		var out []hit
+		var visit func(fn *ssa.Function, bind map[*ssa.Parameter]ssa.Value, site ssa.Instruction, depth int)
+		resolve := func(v ssa.Value, bind map[*ssa.Parameter]ssa.Value) ssa.Value {
+			v = stripConv(v)
+			if p, ok := v.(*ssa.Parameter); ok {
+				if b, has := bind[p]; has {
+					return stripConv(b)
+				}
+			}
+			return v
+		}
+		visit = func(fn *ssa.Function, bind map[*ssa.Parameter]ssa.Value, site ssa.Instruction, depth int) {
+			allInstrsLocal(fn, func(in ssa.Instruction) {
+				at := site
+				if at == nil {
+					at = in
+				}
+				if st, ok := in.(*ssa.Store); ok {
+					if fr, _, isF := fieldOfAddr(st.Addr); isF && fr == state {
+						for _, leaf := range phiLeaves(resolve(st.Val, bind)) {
+							if k, isK := constInt(resolve(leaf, bind)); isK && k == 2 {
+								out = append(out, hit{st, at})
+							}
+						}
+					}
+					return
+				}
+				ci, ok := in.(ssa.CallInstruction)
+				if !ok || depth >= 3 {
+					return
+				}
+				if _, isGo := in.(*ssa.Go); isGo {
+					return
+				}
+				g := staticCallee(ci)
+				if g == nil || g.Blocks == nil || !w.inRoot(g) || g == fn {
+					return
+				}
+				nb := map[*ssa.Parameter]ssa.Value{}
+				for i, p := range g.Params {
+					if i < len(ci.Common().Args) {
+						nb[p] = resolve(ci.Common().Args[i], bind)
+					}
+				}
+				visit(g, nb, at, depth+1)
+			})
+		}
+		visit(root, map[*ssa.Parameter]ssa.Value{}, nil, 0)
+		return out
+	}
+	// self-check of the recogniser: Stop does mark the server closed
+	c.check(len(closedStores(stop)) >= 1, rule, "recogniser finds the closed-state store of Stop", posOf(w, stop), "found", "the store of the closed state in Stop is not recognised: the rule for GracefulStop would pass vacuously")
+	var waitD *ssa.Defer
+	var waitC *ssa.Call
+	allInstrsLocal(gs, func(in ssa.Instruction) {
+		if d, ok := in.(*ssa.Defer); ok && calleeName(d) == "(*sync.WaitGroup).Wait" {
+			waitD = d
+		}
+		if ci, ok := in.(*ssa.Call); ok && calleeName(ci) == "(*sync.WaitGroup).Wait" {
+			waitC = ci
+		}
+	})
+	hits := closedStores(gs)
+	for _, h := range hits {
+		ok := false
+		if _, isDefer := h.site.(*ssa.Defer); isDefer {
+			// runs at exit in reverse order of registration: after the deferred wait only if registered before it
+			ok = (waitD != nil && dominates(h.site, waitD)) || (waitC != nil && dominates(waitC, h.site))
+		} else {
+			ok = waitC != nil && dominates(waitC, h.site)
+		}
+		c.check(ok, rule, "GracefulStop: closed state set only after the wait", w.At(h.site), "after wg.Wait()", "GracefulStop sets the closed state at "+w.At(h.st)+" before its wait for the Serve calls returns: a later Stop finds the server 'already closed', skips the half-close of the tunnels and blocks for as long as the peers keep them open — in-flight handlers are never cancelled")
+	}
+	if len(hits) == 0 {
+		c.ok(rule, "GracefulStop: closed state set only after the wait", posOf(w, gs), "GracefulStop never stores the closed state")
+	}
 }
